@@ -14,6 +14,11 @@
               directly after another transmission (pair6 vectors: pooled transmit buffers) must carry TLC's bytes, headers
               completed concurrently on separate buffers and echo requests sent concurrently must each verify.
               A failing send is replayed together with the history of earlier sends of the process.
+              (5) directed search: the validated transcription solves a free 16-bit word (prefix word of a router
+              advertisement with 1..44 prefixes, echo id) so that the total pseudo-header sum takes every critical value of
+              Cksum.tla FoldClasses (tiny sums, negative zero, byte swaps) at ICMPv6 lengths 80..1496; full 65536-value
+              sweeps of a 5-prefix RA (and, through the hook of hooks/cksumlog_icmp_send.patch when /repo carries it, of
+              a 200 byte echo request; crit6 vectors of TLC are sent through the same hook).
 """
 import os
 
@@ -35,10 +40,14 @@ def run(ctx):
         raise vlib.InfraError("the harness transcription disagrees with the TLA+ definition (oracle invalid): %s" % s["oracle_mismatch"][:3])
     if s["vectors"] != n:
         raise vlib.InfraError("driver consumed %d of %d vectors" % (s["vectors"], n))
+    for dom in ("vectors_by_folds_needed_be", "vectors_by_folds_needed_le"):
+        for k in ("0", "1", "2"):
+            if s[dom].get(k, 0) < 20:
+                raise vlib.InfraError("fold class %s of %s has only %d vectors" % (k, dom, s[dom].get(k, 0)))
     seen = cl.report_failures(ctx, binary, s)
     evaluations = (s["lib_checks"] + s["sweep_len3"] + s["perturbations"] + s["random_strings"] + s["split_checks"] +
                    s["frames_verified"] + s["hdr_field_sweep"] + s["echo_payload_sweep"] + s["concurrent_headers"] +
-                   s["concurrent_frames"])
+                   s["concurrent_frames"] + s["directed_sends"])
     cov = ctx.coverage
     cov.update({
         "tlc": {cfg: r.summary()},
@@ -57,6 +66,14 @@ def run(ctx):
         "split_independence_checks": s["split_checks"],
         "ipv4_header_field_sweep": s["hdr_field_sweep"],
         "icmp_echo_payload_sweep": s["echo_payload_sweep"],
+        "vectors_by_folds_needed_be": s["vectors_by_folds_needed_be"],
+        "vectors_by_folds_needed_le": s["vectors_by_folds_needed_le"],
+        "hook_icmp_send_present": s["hook_icmp_send_present"],
+        "crit6_vectors_sent_through_hook": s["crit6_sent_through_hook"],
+        "directed_sends": s["directed_sends"],
+        "directed_critical_totals_reached": s["directed_targets_reached"],
+        "directed_by_icmp6_length": s["directed_by_icmp6_length"],
+        "full_16bit_sweeps": s["full_16bit_sweeps"],
         "headers_completed_concurrently": s["concurrent_headers"],
         "frames_sent_concurrently": s["concurrent_frames"],
         "emitted_frames_verified": s["frames_verified"],
